@@ -35,8 +35,12 @@ PROPS['C15'] = dict(
     mc=dict(quick=[mc('MC_TailBitmap', 'MC_TailBitmap_q.cfg', expect_min_distinct=10000)],
             thorough=[mc('MC_TailBitmap', 'MC_TailBitmap.cfg', expect_min_distinct=300000)]),
     need_kinds=['tb'],
+    gen=dict(quick=[sim('Gen_TailBitmap', 'Gen_TailBitmap.cfg', 40, 40, 'tb', shards=8)],
+             thorough=[sim('Gen_TailBitmap', 'Gen_TailBitmap.cfg', 1500, 40, 'tb', shards=16)]),
     rule='a case is one TailBitmap history (New, then Set/Compact/Get/Get1 calls): structured fills of 1-5 words in six orders, '
-         'seeded random histories of 60-360 calls, one front-to-back history crossing the 1024-word reclaim threshold and far-bit-first histories; '
+         'layout histories (8-30 words full/partial/empty set in a seeded word order, word 0 completed last so that one Compact walks a long run, then growth by several words and the holes closed one by one), '
+         'TLC-simulated histories of macro-steps (Gen_TailBitmap: fill a word, single bits around offset/end/far beyond, close a hole, Compact), seeded random histories of 60-360 calls, '
+         '4 (thorough 16) histories crossing the 1024-word reclaim threshold with already-full words and live bits behind the crossing word, far-bit-first histories; '
          'every call is one trace event with the projected state (Offset, len(Words), stored 1-bits) judged by Trace_TailBitmap; '
          'distinct = distinct operation sequences (sha256 of the inputs), non-trivial = at least one call after New',
     assumptions=TRUST + ['Get/Get1 are probed only at indexes up to the highest index ever set (the property\'s own domain)'],
